@@ -91,6 +91,12 @@ pub fn set_byte_reg(vm: &mut VM, reg: ByteReg, val: u8)
         final(vm).arch.dx == (match reg { ByteReg::DL => ((old(vm).arch.dx / 256) * 256 + val) as u16, ByteReg::DH => ((old(vm).arch.dx % 256) + val * 256) as u16, _ => old(vm).arch.dx }),
 { unimplemented!() }
 
+pub open spec fn seq_len(line: Seq<u8>) -> int {
+    if line.len() > 0 && line[line.len() - 1] == 10u8 { line.len() - 1 } else { line.len() as int }
+}
+pub open spec fn stored_seq(vm: &VM, line: Seq<u8>) -> int {
+    if seq_len(line) < vm.mem[buf(vm) % 0x100000] { seq_len(line) } else { vm.mem[buf(vm) % 0x100000] as int }
+}
 pub open spec fn first_or_0(line: Seq<u8>) -> u8 { if line.len() > 0 { line[0] } else { 0u8 } }
 pub open spec fn next_line(inp: &InLog) -> Seq<u8> { if inp.lines.len() > 0 { inp.lines[0] } else { Seq::<u8>::empty() } }
 
@@ -105,6 +111,14 @@ pub open spec fn next_line(inp: &InLog) -> Seq<u8> { if inp.lines.len() > 0 { in
         ah == 1 ==> final(vm).mem == old(vm).mem
             && (final(vm).arch.ax == ((old(vm).arch.ax / 256) * 256 + first_or_0(next_line(old(verif_in)))) as u16
                 || (final(vm).arch.ax == old(vm).arch.ax && final(verif_in).lines == old(verif_in).lines && final(verif_log).entries.len() == old(verif_log).entries.len() + 1)),
+        // AH=0Ah: the next input line is stored in the buffer at DS:DX exactly as store_input_line specifies
+        // (at most the declared capacity, count at +1), registers untouched; a read error changes nothing
+        ah == 0xA ==> final(vm).arch == old(vm).arch
+            && ((final(vm).mem == old(vm).mem && final(verif_in).lines == old(verif_in).lines)
+                || (forall|a: int| 0 <= a < 0x100000 ==> #[trigger] final(vm).mem[a] == (
+                        if 2 <= rel(a, buf(old(vm)) % 0x100000) < 2 + stored_seq(old(vm), next_line(old(verif_in))) { next_line(old(verif_in))[rel(a, buf(old(vm)) % 0x100000) - 2] }
+                        else if rel(a, buf(old(vm)) % 0x100000) == 1 { stored_seq(old(vm), next_line(old(verif_in))) as u8 }
+                        else { old(vm).mem[a] }))),
         // any other AH: nothing at all
         ah != 1 && ah != 2 && ah != 0xA ==> final(vm).arch == old(vm).arch && final(vm).mem == old(vm).mem
             && final(verif_log).entries == old(verif_log).entries && final(verif_in).lines == old(verif_in).lines,
